@@ -309,6 +309,56 @@ def duplication_observations(prg, inputs):
     return obs, other
 
 
+def inline_observations(prg, inputs, outputs):
+    """per helper rule that `inline` unfolds into a positive body literal: (helper rule, [(unfolded rule, rule with the helper
+    atom moved to the end)], context) - the data of `C15_inline_positive_body` (the fold against an existing definition read
+    from right to left); + the number of unfoldings outside that shape"""
+    from ngo.inline import InlineTranslator
+    real = InlineTranslator.replace_single_rule_for_body
+    seen = []
+
+    def wrapped(self, p):
+        out = real(self, p)
+        if out is not p:
+            seen.append((list(p), list(out)))
+        return out
+    InlineTranslator.replace_single_rule_for_body = wrapped
+    try:
+        InlineTranslator(prg, inputs, outputs).execute(prg)
+    except Exception:  # noqa - crashes are C03's business
+        return [], 0
+    finally:
+        InlineTranslator.replace_single_rule_for_body = real
+    obs, other = [], 0
+    for p, out in seen:
+        removed = [r for r in p if all(r is not t for t in out)]
+        added = [t for t in out if all(t is not r for r in p)]
+        if len(removed) != 2 or len(added) != 1:
+            other += 1
+            continue
+        helper = next((r for r in removed if plain_head_pred(r) and any(
+            l.ast_type == ASTType.Literal and l.atom.ast_type == ASTType.SymbolicAtom and l.atom.symbol.ast_type == ASTType.Function
+            and (l.atom.symbol.name, len(l.atom.symbol.arguments)) == plain_head_pred(r)
+            for o in removed if o is not r for l in o.body)), None)
+        if helper is None:
+            other += 1
+            continue
+        orig = next(r for r in removed if r is not helper)
+        hp = plain_head_pred(helper)
+        uses = [l for l in orig.body if l.ast_type == ASTType.Literal and l.atom.ast_type == ASTType.SymbolicAtom
+                and l.atom.symbol.ast_type == ASTType.Function and (l.atom.symbol.name, len(l.atom.symbol.arguments)) == hp]
+        if len(uses) != 1 or uses[0].sign != Sign.NoSign or "_" in [v.name for s_ in (helper, orig, added[0]) for v in _collect(s_, "Variable")]:
+            other += 1
+            continue
+        try:
+            u = orig.update(body=[l for l in orig.body if l is not uses[0]] + [uses[0]])
+            ctx = [t for t in out if t is not added[0]]
+            obs.append((ser.stm(helper), [(ser.stm(added[0]), ser.stm(u))], ser.prog(apart_prog(ctx))))
+        except Exception:  # noqa - outside the mirror
+            other += 1
+    return obs, other
+
+
 def domain_observations(prg, inputs):
     """programs produced by the passes that request domain predicates, each with the map predicate -> `__dom_` predicate
     read off the heads of the result"""
@@ -418,8 +468,8 @@ def leanio_show(x) -> str:
 
 def make_texts(rng, n_gen, corpus_limit=None, kinds=None):
     H = corpus.harvest()
-    pref = [x for x in H if x[0] in ("symmetry", "unused", "regression", "projection", "literal_duplication", "dependency", "minmax_aggregates", "sum_aggregates", "cleanup")]
-    rest = [x for x in H if x[0] not in ("symmetry", "unused", "regression", "projection", "literal_duplication", "dependency", "minmax_aggregates", "sum_aggregates", "cleanup")]
+    pref = [x for x in H if x[0] in ("symmetry", "unused", "regression", "projection", "literal_duplication", "dependency", "minmax_aggregates", "sum_aggregates", "cleanup", "inline")]
+    rest = [x for x in H if x[0] not in ("symmetry", "unused", "regression", "projection", "literal_duplication", "dependency", "minmax_aggregates", "sum_aggregates", "cleanup", "inline")]
     if corpus_limit is not None:
         rest = rng.sample(rest, min(len(rest), corpus_limit))
         pref = rng.sample(pref, min(len(pref), 2 * corpus_limit))
@@ -439,7 +489,7 @@ def make_texts(rng, n_gen, corpus_limit=None, kinds=None):
         elif r < 0.75:
             texts.append(("tgen:duplication", tgen.gen_duplication(rng)))
         elif r < 0.9:
-            texts.append(("tgen:domains", rng.choice([tgen.gen_minmax, tgen.gen_sumchains, tgen.gen_symmetry])(rng)))
+            texts.append(("tgen:domains", rng.choice([tgen.gen_minmax, tgen.gen_sumchains, tgen.gen_symmetry, tgen.gen_inline])(rng)))
         elif r < 0.85:
             texts.append(("mutated", gen.mutate(rng, rng.choice(pref or H)[1])))
         else:
@@ -497,6 +547,12 @@ def run(rng, n_gen, corpus_limit=None, kinds=None) -> dict:
             uses = " ".join(f"({o} {u})" for o, u in pairs)
             reqs.append(f'(sem_dup_all {aux} ({uses}) {ctxp})')
             meta.append(("duplication", text, (aux, pairs), 1))
+        iobs, iother = inline_observations(_preprocess(_parse(text)), inputs, outputs) if want("inline") else ([], 0)
+        hist["inline: unfoldings into a negated literal / with anonymous variables / of another shape"] += iother
+        for aux, pairs, ctxp in iobs:
+            uses = " ".join(f"({o} {u})" for o, u in pairs)
+            reqs.append(f'(sem_dup_all {aux} ({uses}) {ctxp})')
+            meta.append(("inline", text, (aux, pairs), 1))
         sobs, other = symmetry_observations(_preprocess(_parse(text)), inputs) if want("symmetry") else ([], 0)
         hist["symmetry: rules rewritten in another shape (count / aux / several literals)"] += other
         for rtext, x, y, others in sobs:
@@ -543,7 +599,12 @@ def run(rng, n_gen, corpus_limit=None, kinds=None) -> dict:
                 outside.append(text)
             continue
         # cleanup: the first two flags decide (check, same literals); the others say which conjunct of the check failed
-        flagsets = [[str(x) == "1" for x in (a[1:3] if kind == "cleanup" else a[1:])] for a in good]
+        if kind == "inline":
+            # `sem_dup_all` answers (some place, every placeCheck, ctxAvoidsCheck, aux rule, pairs): the three flags decide;
+            # the rules are given by the harness here (the pass unfolds, it does not fold), nothing is reconstructed
+            flagsets = [[str(x) == "1" for x in a[1:4]] for a in good]
+        else:
+            flagsets = [[str(x) == "1" for x in (a[1:3] if kind == "cleanup" else a[1:])] for a in good]
         if kind == "cleanup" and not all(flagsets[0]):
             hist["cleanup: failing conjuncts (fragment, p in body, every deriving rule carries q) " + str(tuple(int(str(x) == "1") for x in good[0][3:]))] += 1
         if any(all(f) for f in flagsets):
